@@ -10,7 +10,7 @@ From QV Require Import Base.Res Base.Octets Model.ZoneTree Spec.ZoneLookupS Proo
 
 (* the shared runner (Extract/ExZone.v) also extracts the validation model: keep it in this cone so
    that `make Props/...vo` rebuilds everything the extraction loads *)
-From QV Require Model.ZoneValid Spec.ZoneValidS.
+From QV Require Model.ZoneValid Spec.ZoneValidS Model.RdataBuf.
 
 Definition req_transitive (req : N -> N -> bytes -> bytes -> bool) : Prop :=
   forall cls ty a b c, req cls ty a b = true -> req cls ty b c = true -> req cls ty a c = true.
